@@ -79,3 +79,60 @@ func (h *HelloPingHandler) VerifExpireHello(remote netip.Addr) {
 		st.expires = time.Now().Add(-time.Hour)
 	}
 }
+
+// VerifAdvanceTime simulates the passage of d for everything the router keeps
+// under a clock of its own: connection states (first/last seen), pending hello
+// and pong states (expiry), and the error ping cooldown records. Nothing is
+// removed here; that is what VerifHousekeeping (the cleaner ticks) does.
+// Verification hook: only compiled with the "verif" build tag.
+func (r *Router) VerifAdvanceTime(d time.Duration) {
+	secs := int64(d / time.Second)
+	r.connStatesLock.Lock()
+	for _, e := range r.connStates {
+		e.firstSeen -= secs
+		e.lastSeen.Add(-secs)
+	}
+	r.connStatesLock.Unlock()
+
+	if h := r.HelloPing; h != nil {
+		h.activeLock.Lock()
+		for _, st := range h.active {
+			st.expires = st.expires.Add(-d)
+		}
+		h.activeLock.Unlock()
+	}
+	if h := r.PingPong; h != nil {
+		h.activeLock.Lock()
+		for _, st := range h.active {
+			st.expires = st.expires.Add(-d)
+			st.started = st.started.Add(-d)
+		}
+		h.activeLock.Unlock()
+	}
+	if h := r.ErrorPing; h != nil {
+		h.routerStatesLock.Lock()
+		for _, st := range h.routerStates {
+			st.Lock()
+			for c, t := range st.sent {
+				st.sent[c] = t.Add(-d)
+			}
+			for c, t := range st.rcvd {
+				st.rcvd[c] = t.Add(-d)
+			}
+			st.lastActivity = st.lastActivity.Add(-d)
+			st.Unlock()
+		}
+		h.routerStatesLock.Unlock()
+	}
+}
+
+// VerifHousekeeping runs one tick of the router's cleaners (connection states
+// and ping handler states), exactly what the cleaner workers do on their timers.
+// Verification hook: only compiled with the "verif" build tag.
+func (r *Router) VerifHousekeeping() (panicErr error) {
+	return r.mgr.Do("verif housekeeping", func(w *mgr.WorkerCtx) error {
+		r.cleanConnStates()
+		r.cleanPingHandlers(w)
+		return nil
+	})
+}
